@@ -80,6 +80,11 @@ CLAIMED = {
     note="Trusted: Coq kernel; stdlib real axioms; the tie of the dispersity sums (incl. the F slots) to the Coq model is the C01 correspondence; harness/c14.py.",
     technique="Coq proof (Cauchy-Schwarz by induction over the mesh) + amplitude oracle on the implementation",
     design="DESIGN.md §3 C14"),
+ "C12": dict(
+    text="PARTIAL. Coq obligations over the Gauss-Legendre tables regenerated from /repo/sasmodels/models/lib on every run, in exact integer arithmetic (Bignums BigZ): nodes strictly increasing in (-1,1) and antisymmetric, weights positive and symmetric, and for EVERY degree k < 2n the table integrates x^k to within 1e-13 (20 and 76 points) resp. 1e-10 (150 points: its weights only sum to 2 - 3.8e-11). Not carried by a theorem: that each model's 1-D function is that quadrature of its own 2-D function (no C semantics) and the change of variables of the spherical average. These are measured: 1-D <F^2> against the Gauss-Legendre average (n and 2n points) of the model's own Iqac/Iqabc obtained through a harness-side shim, at points where both quadratures have converged (1e-6); plus, per parameter set, a 2-D value at a random view against the particle-frame function at R^-1 q (the per-model binding of qa,qb,qc) and the 1-D inactivity of orientation parameters and their dispersity.",
+    note="Trusted: Coq kernel + vm_compute with primitive 63-bit integers (PrimInt63 primitives appear under Print Assumptions); table parser in harness/c12.py; harness/shim.py (wrappers in iq_parameters order), numpy leggauss, the C compiler. core_shell_bicelle_elliptical(_belt_rough) is a recorded known finding.",
+    technique="Coq computation over regenerated tables (exact BigZ arithmetic) + orientational-average oracle via shim",
+    design="DESIGN.md §3 C12"),
 }
 NA_REASON = "check not built yet in this session (planned, see DESIGN.md §7)"
 
